@@ -186,11 +186,18 @@ def generate_dependent_dispatch(tup, handlers, next_call, slf, name, err, nerr):
             for i, entry in enumerate(tup)
         )
 
+    def local(name):
+        # Names the generated function uses for itself stay clear of the
+        # keyword parameters, which are called what the user called them
+        while name in reserved:
+            name += "_"
+        return name
+
     def argname(x):
-        return f"ARG{x}" if isinstance(x, int) else x
+        return local(f"ARG{x}") if isinstance(x, int) else x
 
     def argprovide(x):
-        return f"ARG{x}" if isinstance(x, int) else f"{x}={x}"
+        return local(f"ARG{x}") if isinstance(x, int) else f"{x}={x}"
 
     def codegen(typ, arg):
         cg = generate_checking_code(typ)
@@ -200,7 +207,15 @@ def generate_dependent_dispatch(tup, handlers, next_call, slf, name, err, nerr):
 
     tup = to_dict(tup)
     handlers = [(h, to_dict(types)) for h, types in handlers]
+    reserved = {k for k in tup if isinstance(k, str)}
     ndb = NameDatabase(default_name="INJECT")
+    for k in reserved:
+        ndb.register(k)
+    for i in range(max(len(tup), len(handlers))):
+        for base in ("ARG", "HANDLER", "MATCH"):
+            ndb.register(local(f"{base}{i}"))
+    for base in ("HANDLER", "FALLTHROUGH", "SUMMATION", "KEY", "CANDIDATE"):
+        ndb.register(local(base))
     conjs = []
 
     exclusive = False
@@ -254,30 +269,36 @@ def generate_dependent_dispatch(tup, handlers, next_call, slf, name, err, nerr):
     body = []
     if keyexpr:
         body.append("try:")
-        body.append(f"    HANDLER = {ndb[keyed]}.get({keyexpr}, FALLTHROUGH)")
+        body.append(f"    {local('HANDLER')} = {ndb[keyed]}.get({keyexpr}, {local('FALLTHROUGH')})")
         body.append("except TypeError:")
         body.append("    # an unhashable argument: compare it with the keys one by one")
         body.append(
-            f"    HANDLER = next((h for k, h in {ndb[keyed]}.items() if k == {keyexpr}), FALLTHROUGH)"
+            f"    {local('HANDLER')} = next(({local('CANDIDATE')} for {local('KEY')}, {local('CANDIDATE')} in {ndb[keyed]}.items() if {local('KEY')} == {keyexpr}), {local('FALLTHROUGH')})"
         )
-        body.append(f"return HANDLER({slf}{argcall})")
+        body.append(f"return {local('HANDLER')}({slf}{argcall})")
 
     elif exclusive:
         for i, conj in enumerate(conjs):
-            body.append(f"if {conj}: return HANDLER{i}({slf}{argcall})")
-        body.append(f"return FALLTHROUGH({slf}{argcall})")
+            body.append(
+                f"if {conj}: return {local(f'HANDLER{i}')}({slf}{argcall})"
+            )
+        body.append(f"return {local('FALLTHROUGH')}({slf}{argcall})")
 
     else:
         for i, conj in enumerate(conjs):
-            body.append(f"MATCH{i} = {conj}")
+            body.append(f"{local(f'MATCH{i}')} = {conj}")
 
-        summation = " + ".join(f"MATCH{i}" for i in range(len(handlers)))
-        body.append(f"SUMMATION = {summation}")
-        body.append("if SUMMATION == 1:")
+        summation = " + ".join(
+            local(f"MATCH{i}") for i in range(len(handlers))
+        )
+        body.append(f"{local('SUMMATION')} = {summation}")
+        body.append(f"if {local('SUMMATION')} == 1:")
         for i, (h, types) in enumerate(handlers):
-            body.append(f"    if MATCH{i}: return HANDLER{i}({slf}{argcall})")
-        body.append("elif SUMMATION == 0:")
-        body.append(f"    return FALLTHROUGH({slf}{argcall})")
+            body.append(
+                f"    if {local(f'MATCH{i}')}: return {local(f'HANDLER{i}')}({slf}{argcall})"
+            )
+        body.append(f"elif {local('SUMMATION')} == 0:")
+        body.append(f"    return {local('FALLTHROUGH')}({slf}{argcall})")
         body.append("else:")
         body.append(f"    raise {ndb[err]}")
 
@@ -286,12 +307,14 @@ def generate_dependent_dispatch(tup, handlers, next_call, slf, name, err, nerr):
 
     inject = ndb.variables
     for i, (h, types) in enumerate(handlers):
-        inject[f"HANDLER{i}"] = h
+        inject[local(f"HANDLER{i}")] = h
 
     def raise_error(*args, **kwargs):
         raise nerr
 
-    inject["FALLTHROUGH"] = (next_call and next_call[0]) or raise_error
+    inject[local("FALLTHROUGH")] = (
+        next_call and next_call[0]
+    ) or raise_error
 
     fn = instantiate_code(
         symbol="__DEPENDENT_DISPATCH__", code=code, inject=inject
